@@ -80,6 +80,11 @@ def cases(tier: str, seed: int) -> List[Dict[str, Any]]:
         for m, r in [((1, 2), (3, 2)), ((4, 1), (1, 4)), ((1, 1), (1, 1))]:
             out.append({"kind": "wiring", "L": L, "m": list(m), "r": list(r), "post": ["bfloat16", "half", "float", "double", "deepcopy"],
                         "fresh": list(m) == [1, 1]})
+    # other constructor options of the stack (residual dropout) do not enter the taus
+    for L in (1, 2, 3, 8):
+        for m, r in [((1, 2), (3, 2)), ((4, 1), (1, 4))]:
+            for dp in (0.1, 0.5):
+                out.append({"kind": "wiring", "L": L, "m": list(m), "r": list(r), "dropout_p": dp})
     # sweep history: decoders of one depth built in a loop with TEMPORARY rule objects of different hyperparameters
     for L in (1, 2, 5):
         out.append({"kind": "sweep", "L": L, "m": [1, 1], "r": [1, 1], "fresh": True,
@@ -203,6 +208,9 @@ def run_case(case: Dict[str, Any]) -> Dict[str, Any]:
     for L in case.get("Ls", [L]):
         model = model_taus_sq(L, m, r)
         tag = f"m={m}|r={r}|L={L}"
+        if case.get("dropout_p"):
+            kw = dict(kw, dropout_p=case["dropout_p"])
+            tag += f"|dropout_p={case['dropout_p']}"
         dec = uu.TransformerDecoder(hidden_size=8, vocab_size=5, layers=L, heads=1, **kw)
         steps += 2 * L
         if len(dec.layers) != L:
